@@ -29,6 +29,8 @@ pub struct SerializationContext<Output: BinaryOutput> {
 
 impl<Output: BinaryOutput> SerializationContext<Output> {
     pub fn new(output: Output) -> Self {
+        #[cfg(desert_verif)]
+        crate::verif::emit("sctx", 0, 0, 0, 0, "");
         Self {
             output,
             state: State::default(),
@@ -47,6 +49,8 @@ impl<Output: BinaryOutput> SerializationContext<Output> {
     pub fn store_ref_or_object(&mut self, value: &impl Any) -> Result<bool> {
         match self.state_mut().store_ref(value) {
             StoreRefResult::RefAlreadyStored { id } => {
+                #[cfg(desert_verif)]
+                crate::verif::emit("ref", id.0 as i64, 0, 0, 0, "");
                 self.write_var_u32(id.0);
                 Ok(false)
             }
@@ -58,16 +62,29 @@ impl<Output: BinaryOutput> SerializationContext<Output> {
     }
 
     pub fn push_buffer(&mut self, buffer: Vec<u8>) {
+        #[cfg(desert_verif)]
+        crate::verif::emit("pushb", buffer.len() as i64, self.buffer_stack.len() as i64, 0, 0, "");
         self.buffer_stack.push(buffer);
     }
 
     pub fn pop_buffer(&mut self) -> Vec<u8> {
+        #[cfg(desert_verif)]
+        crate::verif::emit(
+            "popb",
+            self.buffer_stack.last().map(|b| b.len() as i64).unwrap_or(-1),
+            self.buffer_stack.len() as i64,
+            0,
+            0,
+            "",
+        );
         self.buffer_stack.pop().unwrap()
     }
 }
 
 impl<Output: BinaryOutput> BinaryOutput for SerializationContext<Output> {
     fn write_u8(&mut self, value: u8) {
+        #[cfg(desert_verif)]
+        crate::verif::emit("w", 1, self.buffer_stack.len() as i64, 0, 0, "");
         match self.buffer_stack.last_mut() {
             Some(buffer) => buffer.write_u8(value),
             None => self.output.write_u8(value),
@@ -75,6 +92,8 @@ impl<Output: BinaryOutput> BinaryOutput for SerializationContext<Output> {
     }
 
     fn write_bytes(&mut self, bytes: &[u8]) {
+        #[cfg(desert_verif)]
+        crate::verif::emit("w", bytes.len() as i64, self.buffer_stack.len() as i64, 0, 0, "");
         match self.buffer_stack.last_mut() {
             Some(buffer) => buffer.write_bytes(bytes),
             None => self.output.write_bytes(bytes),
@@ -283,6 +302,8 @@ impl BinarySerializer for DeduplicatedString {
     ) -> Result<()> {
         match context.state_mut().store_string(self.0.clone()) {
             StoreStringResult::StringAlreadyStored { id } => {
+                #[cfg(desert_verif)]
+                crate::verif::emit("str", id.0 as i64, 0, 0, 0, &self.0);
                 context.write_var_i32(-id.0);
                 Ok(())
             }
